@@ -54,10 +54,17 @@ def rule_single_writer(ctx):
     for fi in ctx.P.functions.values():
         if fi.module.name != 'dimarray.dataset' and not fi.file.startswith('dimarray/core'):
             continue
+        # local names bound to the dict-level view (`plain = super(Dataset, ds)`): the same receiver under another name
+        alias = {}
+        for node in ast.walk(fi.node):
+            if isinstance(node, ast.Assign) and len(node.targets) == 1 and isinstance(node.targets[0], ast.Name) and isinstance(node.value, ast.Call) \
+                    and ast.unparse(node.value).startswith('super(Dataset,'):
+                alias[node.targets[0].id] = ast.unparse(node.value)
         for node in ast.walk(fi.node):
             if isinstance(node, ast.Call) and isinstance(node.func, ast.Attribute) and node.func.attr in ('__setitem__', '__delitem__', 'update', 'setdefault', 'pop', 'popitem', 'clear'):
                 recv = node.func.value
                 txt = ast.unparse(recv)
+                txt = alias.get(txt, txt)
                 is_super_ds = txt.startswith('super(Dataset,') or txt == 'dict'
                 if not is_super_ds:
                     continue
@@ -109,7 +116,15 @@ def rule_setitem(ctx):
         else:
             ctx.holds('R2', 'stored array: copy.copy(val) with _axes = copy.deepcopy(val.axes)')
     # identity: in the axes loop, store val.axes[i] = self.axes[newaxis.name]  |  self.axes.append(newaxis)
-    subst = [e for e in evs if e.kind == 'store_sub' and e.loops and e.a[0] == 'attr' and e.a[2] in ('axes', '_axes')]
+    # (the container may be addressed as val.axes or through a local name bound to the very object stored in val._axes)
+    own_axes = st_axes[0].c if len(st_axes) == 1 else None
+
+    def base_of(t):
+        while t[0] in ('setitem', 'mut', 'phi', 'carried') and t[0] in ('setitem', 'mut'):
+            t = t[1]
+        return t
+    subst = [e for e in evs if e.kind == 'store_sub' and e.loops and ((e.a[0] == 'attr' and e.a[2] in ('axes', '_axes')) or
+                                                                        (own_axes is not None and any(base_of(x) == own_axes for x in T.value_alts(e.a))))]
     appends = [e for e in evs if e.kind == 'call' and T.call_name(e.a) == 'append' and T.call_receiver(e.a) == ('attr', SELF, 'axes') and e.loops]
     oki = True
     if len(subst) != 1 or len(appends) != 1:
@@ -426,6 +441,9 @@ def rule_renames(ctx):
                 src = v[1][1][2][1][v[2]]
                 if src[0] == 'call' and T.call_name(src) == '__getitem__' and 'super' in T.show(src[1]):
                     ok = True
+            # ... or the fetched objects kept in a list of their own, stored back one by one
+            if v[0] == 'elem' and v[1][0] == 'comp' and v[1][2][0] == 'call' and T.call_name(v[1][2]) == '__getitem__' and 'super' in T.show(v[1][2][1]):
+                ok = True
     # key collisions: moving a variable onto a key that another variable keeps overwrites that variable through the raw dict store - its dimensions stay
     # behind in ds.dims although no variable uses them; and `{a: b, b: a}` must not lose a variable (all values fetched / removed before any is stored)
     evf = run(ctx, fi, bind={'inplace': T.CONST_TRUE}, mode='fork', max_paths=20000)
